@@ -106,7 +106,8 @@ class _Unbound(Builtin):
 
 
 class EmitV3(V3Unit):
-    props = ("C05", "C07", "C10", "C11", "C12", "C14")
+    may_be_empty = True
+    props = ("C05", "C07", "C10", "C11", "C12", "C14", "C20")
     label = "proved-shape-bounded(binding list of the enumerated length; every leaf symbolic)"
 
     def __init__(self, level, op, k, ctx_engine_given, reply="ok", interference=False):
@@ -127,7 +128,7 @@ class EmitV3(V3Unit):
                           "puresnmp.util:localise_key", "puresnmp.util:validate_response_id", "puresnmp.pdu:PDU.encode_raw",
                           "puresnmp.pdu:PDU.decode_raw", "puresnmp.plugins.auth:create")
         if reply != "ok":
-            self.props = ("C12",)
+            self.props = ("C12", "C20")
         elif not LEVELS[level][1]:
             self.props = tuple(p for p in self.props if p != "C11")
         if interference:
@@ -253,6 +254,10 @@ class EmitV3(V3Unit):
         same_id = interp.eq(reply_msgid, probe_id)
         inv = get_cls(rt, interp, "puresnmp.exc:InvalidResponseId")
         snmp = get_cls(rt, interp, "puresnmp.exc:SnmpError")
+        if len(sent) == 1:
+            # C20: a refused discovery reply leaves the message processor as it was (the next request starts over)
+            ctx.check(oname("C20", ENC, "frame", "a-refused-discovery-reply-leaves-no-state-behind"),
+                      set(mproc.fields) - w_before <= {"security_model"} and mproc.fields.get("disco") is None)
         if self.reply == "no-bindings":
             chk(("C12",), DISC, "raises", "a-discovery-reply-without-bindings-is-refused", exc is not None and exc_is(exc, snmp) and len(sent) == 1)
             return "refused"
